@@ -222,6 +222,40 @@ def run(R, tier, seed, driver_ok):
             if not name.startswith('SDML'):
                 raise
 
+    # 6c. a fitted estimator and its clone behave identically when fitted — also on data of another dimensionality than the
+    #     estimator saw before (what get_params returns is all that matters, not what an earlier fit left behind)
+    for name in (zoo.ALL if tier == 'thorough' else [zoo.ALL[i] for i in rng.choice(len(zoo.ALL), 8, replace=False)]):
+        d1 = int(rng.randint(2, 4)); d2 = d1 + int(rng.choice([1, 2]))
+        X1, y1 = zoo.blobs(rng, d1, 3, 7); X2, y2 = zoo.blobs(rng, d2, 3, 7)
+        prm = zoo.fix_params(name, zoo.default_params(name, rng, d1), X1, y1)
+        if name.startswith('SDML'):
+            prm['balance_param'] = 1e-7
+        R.case(('c18', name, 'refit-other-dimensionality-vs-clone', X1.tobytes().hex()[:24]), True, branch='refit-vs-clone')
+        try:
+            with warnings.catch_warnings():
+                warnings.simplefilter('ignore')
+                est = zoo.CLASSES[name](**prm).fit(*zoo.fit_args(name, X1, y1, rng))
+                est.set_params(**{k: v for k, v in zoo.fix_params(name, zoo.default_params(name, rng, d2), X2, y2).items() if k in ('n_basis', 'n_chunks', 'chunk_size')})
+                a2 = zoo.fit_args(name, X2, y2, rng)
+                import copy as _c
+                twin = clone(est)
+                try:
+                    est.fit(*_c.deepcopy(a2))
+                except Exception as e:
+                    try:
+                        twin.fit(*_c.deepcopy(a2))
+                        R.violation(f'{name}.refit/raises-{type(e).__name__}-but-clone-fits', f'{name}: refitting a fitted estimator on data with {d2} features (it had seen {d1}) raised {type(e).__name__}: {str(e)[:100]}; its clone fits the same data', {'cls': name})
+                    except Exception:
+                        pass
+                    continue
+                twin.fit(*_c.deepcopy(a2))
+                Q2 = rng.randn(5, 2, d2)
+                if not np.allclose(est.pair_distance(Q2), twin.pair_distance(Q2), rtol=1e-9, atol=0):
+                    R.violation(f'{name}.refit/differs-from-clone', f'{name}: a refitted estimator and its clone fitted on the same data disagree', {'cls': name})
+        except RuntimeError:
+            if not name.startswith('SDML'):
+                raise
+
     # 7. parameters stay untouched through fit: what get_params returns after fit is the identical object with the
     #    contents it had at construction, so that clone(fitted) and a refit behave like the first fit
     #    (array-valued init / prior / basis / preprocessor, float64 so that no conversion copy hides an alias)
